@@ -228,6 +228,34 @@ CHECKS = {
         "(children outside parents by up to 1.15 x tolerance on two maps).",
         "3/C20",
     ),
+    "C03": (
+        "exploration",
+        "sampler seam (exact + lattice) + measure oracle",
+        "every sampler driven through ALL its discrete branches (exact weights) and a complete quantile lattice of its continuous draws; "
+        "membership, support and uniformity judged by deterministic interval / density bounds against an independent measure oracle",
+        "17 region kinds and 24 (thorough: all 396 ordered pairs x 3 operations, 3 parameter sets) compositions: discrete regions give "
+        "exactly uniform laws over the members of the composed set; for continuous regions every lattice image is a member (3 coordinates, "
+        "independent analytic predicates), every part of positive measure is reached, and the pushforward of the N^k lattice is uniform "
+        "within a derived discretisation bracket (interval test) and a 5% density test (finite-difference Jacobian) — for compositions with "
+        "respect to the measure of the composed set.",
+        "Trusted: models/measure_c03.py (no Scenic / trimesh / shapely), the seam overrides in the check. Uniformity is claimed for the "
+        "lattice pushforward, not for all real-valued draws; features thinner than a lattice box are not resolved (counted).",
+        "3/C03",
+    ),
+    "C08": (
+        "exploration",
+        "program generator + sampler lattice, pruned vs unpruned",
+        "bounded-exhaustive program generator x complete lattice of the unpruned sampler's random inputs; every accepted lattice scene must "
+        "survive pruning and vice versa; watchdog for termination",
+        "81 (thorough 1054) programs over containment (2D/3D, offsets), distance and relative-heading requirements in every syntactic form "
+        "the matcher handles or must ignore, and visibility constructs: each compiled with and without pruning; every lattice scene accepted "
+        "without pruning has its base point in the pruned region (own containsPoint and independent polygon / solid membership), every scene "
+        "accepted with pruning lies in the original region and satisfies the requirements, non-positional properties are identical, infeasible "
+        "is reported only when the lattice found no feasible scene, and compilation finishes within 60 CPU-s.",
+        "Trusted: the lattice seam of the check, membership predicates of models/solid.py. Two-object programs judge a candidate relative to a "
+        "coarse partner lattice (every accepted scene is genuine).",
+        "3/C08",
+    ),
 }
 
 NOT_YET = {}
